@@ -187,6 +187,8 @@ class C10(Prop):
             items_cache[id(form)] = out
             return out
 
+        harness_cancel = {"on": False}
+
         async def scenario(loop):
             req_abs = AbstractRequest("POST", "/", headers=[("content-type", plan["ct"])] if plan["ct"] else [], body=body)
             peer = AsgiHttpPeer(loop, ctx, ctx.sched, req_abs, plan["msgs"], recv_lat_extra=(0.0, 0.0, 0.05, 0.2),
@@ -230,7 +232,10 @@ class C10(Prop):
                     except (RuntimeError, ClientDisconnect, HTTPException) as e:
                         r = ("exc", type(e).__name__, str(e))
                     except asyncio.CancelledError:
-                        raise
+                        if harness_cancel["on"]:
+                            raise
+                        # nobody in this scenario cancels anything: an access that ends cancelled is a wrong outcome
+                        r = ("bad", "CancelledError", "the access was cancelled although no task was cancelled by the application")
                     except Exception as e:  # any other exception type is a violation
                         r = ("bad", type(e).__name__, str(e))
                     results.append((tid, step, op, arg) + r)
@@ -240,8 +245,11 @@ class C10(Prop):
             done, pend = await asyncio.wait(tasks, timeout=500.0)
             snap = {"pend": len(pend), "recv_calls": peer.recv_calls, "delivered": len(peer.recv_returns)}
             for tk in done:
-                if tk.exception() is not None:
+                if tk.cancelled():
+                    ctx.violate("C10|asgi|program-crashed|CancelledError", "an access program ended cancelled")
+                elif tk.exception() is not None:
                     ctx.violate("C10|asgi|program-crashed|%s" % type(tk.exception()).__name__, repr(tk.exception()))
+            harness_cancel["on"] = True
             for tk in pend:
                 tk.cancel()
             # release what partial stream consumers left behind (after the snapshot)
